@@ -10,10 +10,11 @@ from ..core import Sub, build_machine, run_history
 PROP = {
     "id": "C08",
     "level": "fault_enumeration",
-    "technique": "exhaustive matrix of 8 mutators x 7 access modes x file images (scripted histories through one interpreter) + Hypothesis RuleBasedStateMachine interleaving allow_write / enter / exit / exit-by-exception / new object / mutators / readers with an explicit mode model (armed, inside, write); oracle: bytes changed => the call was a mutator issued inside a context entered after allow_write(); otherwise the mutator must raise; readers never change bytes, mtime or size, and implicitly opened handles are closed (handler.closed, /proc/self/fd count)",
-    "level_text": ("Fault enumeration: the mutator x mode matrix (add_block, remove_block, replace_block and the five setters; no context, "
+    "technique": "exhaustive matrix of (8 mutators + 21 readers) x 10 scripted access modes x 3 file images (scripted histories through one interpreter) + Hypothesis RuleBasedStateMachine interleaving allow_write / enter / exit / exit-by-exception / new object / mutators / readers with an explicit mode model (armed, inside, write); oracle: bytes changed => the call was a mutator issued inside a context entered after allow_write(); otherwise the mutator must raise; readers never change bytes, mtime or size, and implicitly opened handles are closed (handler.closed, /proc/self/fd count)",
+    "level_text": ("Fault enumeration: the mutator x mode matrix (add_block, remove_block, replace_block and the five setters; ten scripted modes: no context, "
                    "allow_write without context, read-only context, write context, context re-entered after a write context, context "
-                   "left through an exception, allow_write issued inside a read-only context) is enumerated completely on three file "
+                   "left through an exception (then plain context / no context), allow_write issued inside a read-only context, no context "
+                   "after a write context, armed then reader then context) plus 21 readers incl. a bare '==' is enumerated completely on three file "
                    "images; a state machine then explores arbitrary interleavings on generated images. Every call is bracketed by a "
                    "byte-for-byte comparison of the file."),
     "level_note": "Trusted: the mode model in this module (allow_write arms; entering a context - also an implicit one opened by a reader - consumes the arm; leaving any context disarms). Nested contexts and non-TDF files are not generated. Inside a proper write context the outcome of the mutation itself is not judged here (C11 / C07 do that).",
